@@ -18,11 +18,13 @@ pub struct Rw {
     pub field_recv: HashSet<String>,
     /// the plain-float unit: f64 -> Fp, <f64>::f -> Fp::std_f, float literals -> Fp::lit
     pub float_unit: bool,
+    /// nested unit: (outer type name, nested struct name, inner type name substituted for T)
+    pub nested: Option<(String, String, String)>,
 }
 
 impl Rw {
     pub fn new(ints: HashSet<String>) -> Self {
-        Rw { dims: HashSet::new(), ints, counts: BTreeMap::new(), err: None, rename_self: false, field_methods: Default::default(), field_recv: HashSet::new(), float_unit: false }
+        Rw { dims: HashSet::new(), ints, counts: BTreeMap::new(), err: None, rename_self: false, field_methods: Default::default(), field_recv: HashSet::new(), float_unit: false, nested: None }
     }
     fn bump(&mut self, k: &'static str) {
         *self.counts.entry(k).or_insert(0) += 1;
@@ -46,6 +48,19 @@ fn strip_known_generics(path: &mut syn::Path, rw: &mut Rw) {
     let n = path.segments.len();
     for (i, seg) in path.segments.iter_mut().enumerate() {
         let id = seg.ident.to_string();
+        if let Some((outer, nname, inner)) = rw.nested.clone() {
+            if id == outer {
+                seg.ident = syn::Ident::new(&nname, seg.ident.span());
+                seg.arguments = syn::PathArguments::None;
+                rw.bump("R1_nested_outer");
+                continue;
+            }
+            if i == 0 && id == "T" && seg.arguments.is_none() {
+                seg.ident = syn::Ident::new(&inner, seg.ident.span());
+                rw.bump("R1_T_to_inner");
+                continue;
+            }
+        }
         if TYPE_NAMES.contains(&id.as_str()) || id == "DualNum" {
             if !matches!(seg.arguments, syn::PathArguments::None) {
                 seg.arguments = syn::PathArguments::None;
